@@ -291,7 +291,7 @@ func deepEq(w *worker, a, b value, loose bool) value {
 				}
 			}
 			return r
-		case string, symstr:
+		case string, symstr, opaqueStr:
 			if !isStr(b) {
 				return false
 			}
